@@ -124,10 +124,14 @@ def check_esc(case, known=False):
         if mode["m"] in ("volatile", "nested") and has_hcat and not known:
             raise core.Excluded()  # known finding F5
         s_on, entry, esrc = c15.mode_sources(templates, mode, True)
-        on = c15.stream(c15.make_env(s_on, mode, True), entry, esrc, data, allowed)
+        on = c15.stream(c15.make_env(s_on, mode, True, case.get("env")), entry, esrc, data, allowed)
         s_off, entry, esrc = c15.mode_sources(templates, mode, False)
-        off = c15.stream(c15.make_env(s_off, mode, False), entry, esrc, data, allowed)
-        differ = _compare("esc mode %s" % c15._mode_name(mode), on, off, s_on) or differ
+        off = c15.stream(c15.make_env(s_off, mode, False, case.get("env")), entry, esrc, data, allowed)
+        differ = _compare("esc mode %s%s" % (c15._mode_name(mode), " env %s" % case["env"] if case.get("env") else ""), on, off, s_on) or differ
+        if case.get("env", {}).get("async"):
+            labels.add("env:async")
+        if case.get("env", {}).get("sandbox"):
+            labels.add("env:sandbox")
         labels.add("mode:" + mode["m"])
         labels.add("ok" if on[1] is None else "err:" + type(on[1]).__name__)
     return core.Outcome(boundary and differ, sorted(labels))
@@ -342,7 +346,7 @@ def _neutral_tset(node):
 
 
 def check_tset(case):
-    ir = _neutral_tset(c15.enrich_ir(case["ir"]))
+    ir = _neutral_tset(c15.enrich_ir(case["ir"], ae="strip"))
     data = c15.enrich_data(case["data"])
     sources = tsets.print_set(ir)
     labels = {"tset:" + ir["kind"]}
@@ -382,8 +386,8 @@ def check_case(case):
 
 
 def esc_cases(size):
-    return st.builds(lambda p, d, m: {"kind": "esc", "templates": p["templates"], "data": d, "modes": c15.fit_modes(p["templates"], m)},
-                     escgen.programs(neutral=True, size=size), escgen.datas(), c15.modes())
+    return st.builds(lambda p, d, m, e: {"kind": "esc", "templates": p["templates"], "data": d, "modes": c15.fit_modes(p["templates"], m), "env": e},
+                     escgen.programs(neutral=True, size=size), escgen.datas(), c15.modes(), st.sampled_from(c15.ENV_OPTS))
 
 
 _STMT_MODES = st.sampled_from([[{"m": "static"}], [{"m": "static"}], [{"m": "static"}], [{"m": "region"}], [{"m": "region"}], [{"m": "volatile", "flag": "y"}]])
@@ -419,7 +423,7 @@ def run_shard(spec, ctx):
 
 def floors(total, tier):
     lab = total.labels
-    for need in ("mode:static", "mode:select", "mode:string", "mode:region", "mode:volatile", "mode:segments", "mode:nested", "s:macro", "s:callblock", "s:caller",
+    for need in ("mode:static", "mode:select", "mode:string", "mode:region", "mode:volatile", "mode:segments", "mode:nested", "env:async", "env:sandbox", "s:macro", "s:callblock", "s:caller",
                  "s:setblock", "s:filter", "s:include", "s:import", "s:from", "s:block", "s:super", "s:self", "s:recursive", "s:module_macro",
                  "stmt", "tset:inherit", "tset:modules"):
         if lab.get(need, 0) < 10:
